@@ -257,7 +257,21 @@ impl Puppet {
         let watch = WATCH.with(|w| w.borrow().clone());
         let me = env.contract.address.to_string();
         let reply_ok: Option<bool> = reply.as_ref().map(|r| r.ok);
-        let own_store: Dump = deps.storage.range(None, None, Order::Ascending).collect();
+        let mut own_store: Dump = deps.storage.range(None, None, Order::Ascending).collect();
+        // the contract's bounded iterations must be the matching parts of its full iteration (start
+        // bounds ending in 0xFF, both orders); a disagreement is recorded as a marker entry, which no
+        // model state contains
+        for b in [&b"a\xff"[..], &b"m"[..], &b"\xff"[..], &b"pre\xff\xff"[..], &b""[..]] {
+            let from: Dump = deps.storage.range(Some(b), None, Order::Ascending).collect();
+            let want_from: Dump = own_store.iter().filter(|(k, _)| k.as_slice() >= b).cloned().collect();
+            let below: Dump = deps.storage.range(None, Some(b), Order::Descending).collect();
+            let mut want_below: Dump = own_store.iter().filter(|(k, _)| k.as_slice() < b).cloned().collect();
+            want_below.reverse();
+            if from != want_from || below != want_below {
+                own_store.push((b"\xff<own bounded iteration disagrees with own full iteration at bound>".to_vec(), b.to_vec()));
+                break;
+            }
+        }
         let bundle = make_bundle(&deps.as_ref(), &env, &watch);
         let rec = TraceRec {
             kind,
